@@ -165,7 +165,7 @@ def generate(rng, tier):
     return {
         "streamfault": streamfault, "latin1_at": latin1_at, "readfault_nth": rng.range(1, 4),
         "diff": text, "quoted": quoted, "p": p, "filter": flt, "expected": expected, "ctx": ctx,
-        "child": rng.choice(["ok"] * 5 + ["exit1", "exit101", "signal9", "signal11", "enoent", "e2big"]),
+        "child": rng.choice(["ok"] * 5 + ["exit1", "exit101", "signal9", "signal11", "enoent", "e2big", "echild"]),
         # the tool's own standard output cannot be written (reader gone: EPIPE; disk full: ENOSPC)
         "outfault": rng.choice([None] * 5 + [32, 28]),
         "chunks": [rng.choice(["1", "7,1,30", "64", "3,200", "1000000"]), rng.choice(["2,5", "13", "1,1,1,4096"])],
@@ -195,6 +195,10 @@ def execute(case):
                 stubplan = ["* signal %s" % child[6:]]
             elif child == "enoent":
                 env["RUSTFMT"] = "/nonexistent/rustfmt"
+            if child == "echild":
+                # the child fails and cannot even be waited for (SIGCHLD ignored by whoever started the tool: the kernel
+                # reaps it, waitpid answers ECHILD): nothing is known about it, which is not success
+                stubplan = ["* exit 3"]
             e2big = child == "e2big"
             if e2big:
                 stubplan = ["0 exit 1"]  # whatever the tool tries after the failed spawn: its first child fails
@@ -205,6 +209,8 @@ def execute(case):
                 plan.append("0 spawn 1 stub-rustfmt errno 7")
             if case.get("outfault"):
                 plan.append("0 write 0 @1 errno %d" % case["outfault"])
+            if child == "echild":
+                plan.append("0 wait 1 * errno 10")
             sf = case.get("streamfault")
             stdin = case["diff"]
             if sf == "read-eio":
